@@ -78,6 +78,10 @@ func runC13(r *vhlib.Run) {
 	// the bit writer under every Writer: prefix.Writer against its implementation-level model
 	// (Prefix/WriterImpl.v) over scripted sinks that fail with short counts, once or permanently
 	runWBITW(r)
+	// bzip2.Writer and meta.Writer themselves against their implementation-level models over the
+	// same scripted failing sinks, per call (Bzip2/WriterImpl.v, Meta/WriterImpl.v)
+	runWBZW(r)
+	runWMETAW(r)
 	nsched := 6
 	if !r.Quick() {
 		nsched = 60
